@@ -319,7 +319,11 @@ CHECKS['C11'] = dict(
          'kernel computed by the model (assembly + Model/Lower.lean + regenerated leaf table) is compared with '
          'TerminalExpr(Norm(...)) on random error expressions, dims 1-3; the oracle compares the real kernel, '
          'instantiated, with the explicit Sobolev formula.',
-    note='Trusted: Lean kernel; that lowering preserves meaning is C01/C02; LogicalExpr of a Norm is covered by C03/C04.',
+    note='Trusted: Lean kernel. The kernel itself is now proved: norm_kernel_sound_scalar / norm_kernel_sound_vector (Props/C11.lean) '
+         'compose the assembly theorems with C01 lower_sound — whatever Norm.kernel returns denotes the classical Sobolev '
+         'integrand, all six kind x norm/semi-norm combinations, d = 1-3, physical and logical operators (error expressions '
+         'with powers / elementary functions are outside the theorem and covered by correspondence + oracle); the logical '
+         'route of an evaluated kernel on mapped domains is checked by the oracle (mapped_norm_cases) and by C03/C04.',
     technique='Lean 4 proof (classical semantics) + differential correspondence',
     design='6/C11')
 
